@@ -119,6 +119,7 @@ Fixpoint wf (c: constr) : bool :=
   | CSingle vs | CAlpha vs => nonnil vs && forallb nonbits vs
   | CContained pre plain post =>
       (nonnil pre || nonnil plain || nonnil post) && forallb nonbits plain
+      && (nonnil plain || negb (nonnil post))     (* [post] only exists after a plain value *)
       && (fix all (l: list constr) : bool :=
             match l with [] => true | c' :: r => wf c' && all r end) pre
       && (fix all (l: list constr) : bool :=
@@ -163,7 +164,8 @@ Fixpoint typed (c: constr) (idx: option sval) (x: cval) {struct c} : bool :=
   | CRange _ _ => match x with VS (SInt _) => true | _ => false end
   | CSize _ _ => match x with VS (SInt _) | VNone => false | _ => true end
   | CAlpha _ => match x with VS (SBytes _) | VS (SText _) | VS (SOid _) => true | _ => false end
-  | CPresent | CAbsent => true
+  | CPresent => true
+  | CAbsent => match x with VS (SOid _) => false | _ => true end   (* presence is about components *)
   | CWith fields =>
       match x with
       | VMap m =>
